@@ -28,6 +28,7 @@ theorem runFrom_of_stuck {s : State} (h : stuck s = true) (σ : List Nat) : runF
 
 /-- the connection a program counter holds (same as `Thread.pcConn`, as a function of the pc) -/
 def Pc.conn : Pc → Option ConnId
+  | .dropClose c .. => some c
   | .send c .. => some c
   | .recv c .. => some c
   | .putCheck i _ | .putLoad i _ | .putQ i _ | .fullClose i _ | .warn i _ | .discard i _ => i
@@ -37,7 +38,7 @@ def Pc.conn : Pc → Option ConnId
 /-- `1` when the program counter is inside a checkout (between a successful `get` and the end of
 the matching `_put_conn`) or holds an item taken by `close`'s drain loop -/
 def Pc.slots : Pc → Nat
-  | .send .. | .recv .. => 1
+  | .dropClose .. | .send .. | .recv .. => 1
   | .putCheck .. | .putLoad .. | .putQ .. | .fullClose .. | .warn .. | .discard .. => 1
   | .drainClose _ => 1
   | _ => 0
@@ -50,6 +51,8 @@ def Pc.slots : Pc → Nat
 @[simp] theorem Pc.slots_getLoad {f l s} : (Pc.getLoad f l s).slots = 0 := rfl
 @[simp] theorem Pc.conn_getQ {f l s} : (Pc.getQ f l s).conn = none := rfl
 @[simp] theorem Pc.slots_getQ {f l s} : (Pc.getQ f l s).slots = 0 := rfl
+@[simp] theorem Pc.conn_dropClose {c f l s} : (Pc.dropClose c f l s).conn = some c := rfl
+@[simp] theorem Pc.slots_dropClose {c f l s} : (Pc.dropClose c f l s).slots = 1 := rfl
 @[simp] theorem Pc.conn_send {c f l s} : (Pc.send c f l s).conn = some c := rfl
 @[simp] theorem Pc.slots_send {c f l s} : (Pc.send c f l s).slots = 1 := rfl
 @[simp] theorem Pc.conn_recv {c t f l s} : (Pc.recv c t f l s).conn = some c := rfl
@@ -82,6 +85,7 @@ def Pc.cont : Pc → Option Cont
 @[simp] theorem Pc.cont_getCheck {f l s} : (Pc.getCheck f l s).cont = none := rfl
 @[simp] theorem Pc.cont_getLoad {f l s} : (Pc.getLoad f l s).cont = none := rfl
 @[simp] theorem Pc.cont_getQ {f l s} : (Pc.getQ f l s).cont = none := rfl
+@[simp] theorem Pc.cont_dropClose {c f l s} : (Pc.dropClose c f l s).cont = none := rfl
 @[simp] theorem Pc.cont_send {c f l s} : (Pc.send c f l s).cont = none := rfl
 @[simp] theorem Pc.cont_recv {c t f l s} : (Pc.recv c t f l s).cont = none := rfl
 @[simp] theorem Pc.cont_putCheck {i k} : (Pc.putCheck i k).cont = some k := rfl
@@ -356,7 +360,7 @@ def Cont.kind : Cont → Nat
 /-- the kind of op a program counter belongs to -/
 def Pc.kind : Pc → Option Nat
   | .idle => none
-  | .getCheck .. | .getLoad .. | .getQ .. | .send .. | .recv .. => some 0
+  | .getCheck .. | .getLoad .. | .getQ .. | .dropClose .. | .send .. | .recv .. => some 0
   | .putCheck _ k | .putLoad _ k | .putQ _ k | .fullClose _ k | .warn _ k | .discard _ k => some k.kind
   | .closeSwap | .drain | .drainClose _ => some 2
 
@@ -364,6 +368,7 @@ def Pc.kind : Pc → Option Nat
 @[simp] theorem Pc.kind_getCheck {f l s} : (Pc.getCheck f l s).kind = some 0 := rfl
 @[simp] theorem Pc.kind_getLoad {f l s} : (Pc.getLoad f l s).kind = some 0 := rfl
 @[simp] theorem Pc.kind_getQ {f l s} : (Pc.getQ f l s).kind = some 0 := rfl
+@[simp] theorem Pc.kind_dropClose {c f l s} : (Pc.dropClose c f l s).kind = some 0 := rfl
 @[simp] theorem Pc.kind_send {c f l s} : (Pc.send c f l s).kind = some 0 := rfl
 @[simp] theorem Pc.kind_recv {c t f l s} : (Pc.recv c t f l s).kind = some 0 := rfl
 @[simp] theorem Pc.kind_putCheck {i k} : (Pc.putCheck i k).kind = some k.kind := rfl
@@ -590,7 +595,8 @@ def Cont.stream : Cont → Bool
 
 /-- the `preload_content=False` flag of the request a program counter is in -/
 def Pc.stream : Pc → Bool
-  | .getCheck _ _ st | .getLoad _ _ st | .getQ _ _ st | .send _ _ _ st | .recv _ _ _ _ st => st
+  | .getCheck _ _ st | .getLoad _ _ st | .getQ _ _ st | .dropClose _ _ _ st | .send _ _ _ st
+  | .recv _ _ _ _ st => st
   | .putCheck _ k | .putLoad _ k | .putQ _ k | .fullClose _ k | .warn _ k | .discard _ k => k.stream
   | _ => false
 
@@ -598,6 +604,7 @@ def Pc.stream : Pc → Bool
 @[simp] theorem Pc.stream_getCheck {f l s} : (Pc.getCheck f l s).stream = s := rfl
 @[simp] theorem Pc.stream_getLoad {f l s} : (Pc.getLoad f l s).stream = s := rfl
 @[simp] theorem Pc.stream_getQ {f l s} : (Pc.getQ f l s).stream = s := rfl
+@[simp] theorem Pc.stream_dropClose {c f l s} : (Pc.dropClose c f l s).stream = s := rfl
 @[simp] theorem Pc.stream_send {c f l s} : (Pc.send c f l s).stream = s := rfl
 @[simp] theorem Pc.stream_recv {c t f l s} : (Pc.recv c t f l s).stream = s := rfl
 @[simp] theorem Pc.stream_putCheck {i k} : (Pc.putCheck i k).stream = k.stream := rfl
@@ -696,24 +703,25 @@ theorem Disc.slots_getQ {th : Thread} (hd : Disc th) {f l st} (h : th.pc = .getQ
 /-- upper bound on the number of steps of one op (not counting the drain loop of `close`, which is
 paid for by the queue length) -/
 def Op.cost : Op → Nat
-  | .req f _ _ => 12 * (f + 1)
+  | .req f _ _ => 13 * (f + 1)
   | .release => 8
   | .close => 4
 
 def progCost (p : List Op) : Nat := (p.map Op.cost).sum
 
 def Cont.cost : Cont → Nat
-  | .retry f _ _ => 12 * (f + 1)
+  | .retry f _ _ => 13 * (f + 1)
   | _ => 0
 
 /-- steps left in the op the program counter is in -/
 def Pc.cost : Pc → Nat
   | .idle => 0
-  | .getCheck f _ _ => 11 + 12 * f
-  | .getLoad f _ _ => 10 + 12 * f
-  | .getQ f _ _ => 9 + 12 * f
-  | .send _ f _ _ => 8 + 12 * f
-  | .recv _ _ f _ _ => 7 + 12 * f
+  | .getCheck f _ _ => 12 + 13 * f
+  | .getLoad f _ _ => 11 + 13 * f
+  | .getQ f _ _ => 10 + 13 * f
+  | .dropClose _ f _ _ => 9 + 13 * f
+  | .send _ f _ _ => 8 + 13 * f
+  | .recv _ _ f _ _ => 7 + 13 * f
   | .putCheck _ k => 6 + k.cost
   | .putLoad _ k => 5 + k.cost
   | .putQ _ k => 4 + k.cost
@@ -777,10 +785,12 @@ def Outcome.good : Outcome → Bool
   | .ok => true
   | .fail => false
   | .okClose => true
+  | .okDrop => true
 
 @[simp] theorem Outcome.good_ok : Outcome.ok.good = true := rfl
 @[simp] theorem Outcome.good_fail : Outcome.fail.good = false := rfl
 @[simp] theorem Outcome.good_okClose : Outcome.okClose.good = true := rfl
+@[simp] theorem Outcome.good_okDrop : Outcome.okDrop.good = true := rfl
 theorem Outcome.good_eq_false {l : Outcome} : l.good = false ↔ l = .fail := by cases l <;> simp
 theorem Outcome.good_eq_true {l : Outcome} : l.good = true ↔ l ≠ .fail := by cases l <;> simp
 
@@ -793,7 +803,8 @@ def Cont.last : Cont → Option Bool
 
 /-- whether the scripted last attempt of the request a program counter is in succeeds -/
 def Pc.last : Pc → Option Bool
-  | .getCheck _ l _ | .getLoad _ l _ | .getQ _ l _ | .send _ _ l _ | .recv _ _ _ l _ => some l.good
+  | .getCheck _ l _ | .getLoad _ l _ | .getQ _ l _ | .dropClose _ _ l _ | .send _ _ l _
+  | .recv _ _ _ l _ => some l.good
   | .putCheck _ k | .putLoad _ k | .putQ _ k | .fullClose _ k | .warn _ k | .discard _ k => k.last
   | _ => none
 
@@ -801,6 +812,7 @@ def Pc.last : Pc → Option Bool
 @[simp] theorem Pc.last_getCheck {f l s} : (Pc.getCheck f l s).last = some l.good := rfl
 @[simp] theorem Pc.last_getLoad {f l s} : (Pc.getLoad f l s).last = some l.good := rfl
 @[simp] theorem Pc.last_getQ {f l s} : (Pc.getQ f l s).last = some l.good := rfl
+@[simp] theorem Pc.last_dropClose {c f l s} : (Pc.dropClose c f l s).last = some l.good := rfl
 @[simp] theorem Pc.last_send {c f l s} : (Pc.send c f l s).last = some l.good := rfl
 @[simp] theorem Pc.last_recv {c t f l s} : (Pc.recv c t f l s).last = some l.good := rfl
 @[simp] theorem Pc.last_putCheck {i k} : (Pc.putCheck i k).last = k.last := rfl
@@ -939,7 +951,7 @@ theorem disc2_false_of {b : Bool} {p : List Op} (h : disc2 b p = true) : disc2 f
 /-- slots a program counter holds, not counting an item taken by `close`'s drain loop (which is
 never put back) -/
 def Pc.slots2 : Pc → Nat
-  | .send .. | .recv .. => 1
+  | .dropClose .. | .send .. | .recv .. => 1
   | .putCheck .. | .putLoad .. | .putQ .. | .fullClose .. | .warn .. | .discard .. => 1
   | _ => 0
 
@@ -947,6 +959,7 @@ def Pc.slots2 : Pc → Nat
 @[simp] theorem Pc.slots2_getCheck {f l s} : (Pc.getCheck f l s).slots2 = 0 := rfl
 @[simp] theorem Pc.slots2_getLoad {f l s} : (Pc.getLoad f l s).slots2 = 0 := rfl
 @[simp] theorem Pc.slots2_getQ {f l s} : (Pc.getQ f l s).slots2 = 0 := rfl
+@[simp] theorem Pc.slots2_dropClose {c f l s} : (Pc.dropClose c f l s).slots2 = 1 := rfl
 @[simp] theorem Pc.slots2_send {c f l s} : (Pc.send c f l s).slots2 = 1 := rfl
 @[simp] theorem Pc.slots2_recv {c t f l s} : (Pc.recv c t f l s).slots2 = 1 := rfl
 @[simp] theorem Pc.slots2_putCheck {i k} : (Pc.putCheck i k).slots2 = 1 := rfl
